@@ -14,7 +14,7 @@ import numpy as np
 import common
 from common import Judge, MachineryError, run_tlc
 import elems
-from elems import CLS, WRONG, inject, project, ident
+from elems import MAIN8,  CLS, WRONG, inject, project, ident
 
 PID = "C10"
 NONE = 99
@@ -365,6 +365,17 @@ def constructors(j, cname):
         j.fail("%s|FromObjects|%s;mixed-class|no-exception" % (PID, cname), {"cls": cname, "got": st})
     except Exception:  # noqa: BLE001
         j.ok((cname, "FromObjects", "mixed"))
+    # a MULTI-valued object inside a list of objects (where single values are required) must be rejected as well
+    if cname in MAIN8:
+        for pos, lst in (("second", lambda: [inject(cname, [5]), inject(cname, [6, 7])]), ("first", lambda: [inject(cname, [6, 7]), inject(cname, [5])]),
+                         ("only", lambda: [inject(cname, [6, 7])])):
+            try:
+                o = C(lst())
+                c, st = project(cname, o)
+                j.fail("%s|FromObjects|%s;multi-valued-element-%s|no-exception" % (PID, cname, pos),
+                       {"cls": cname, "got": [str(x) for x in st]}, case_id=(cname, "FromObjects", "multi", pos))
+            except Exception:  # noqa: BLE001
+                j.ok((cname, "FromObjects", "multi", pos))
 
 
 # ------------------------------------------------------------------------------------
